@@ -17,9 +17,10 @@ CORE_TRUST = [
 
 
 def seq_configs(run, thorough_extra=False):
-    cfgs = [('debug', 'even'), ('release', 'even')]
+    # quick: both profiles and both address parities are touched (the odd promotable vtable is reachable only with odd buffers)
+    cfgs = [('debug', 'even'), ('release', 'odd')]
     if run.tier == 'thorough' or thorough_extra:
-        cfgs += [('debug', 'odd'), ('release', 'odd'), ('release', 'alt')]
+        cfgs += [('debug', 'odd'), ('release', 'even'), ('release', 'alt')]
     return cfgs
 
 
@@ -111,7 +112,21 @@ def core_check(pid, props_mod, fail_pids, modes=('walk', 'boundary', 'pairs'), s
         vlib.extract()
         # C02 also rests on the inventory of unsafe sites outside bytes.rs / bytes_mut.rs (Cert/C17): a new or edited unsafe block
         # in the Buf / BufMut code is not covered by M1's no_ub
-        vlib.standard_lean_phase(run, props_mod, 'BytesVerif.Cert.C17' if pid == 'C02' else None, ['BytesVerif.Lemmas.Core.Sound'] + list(extra_mods))
+        # every M1 property: the vtable wiring / constants the model was written from (Cert/C01)
+        vlib.standard_lean_phase(run, props_mod, 'BytesVerif.Cert.C01', ['BytesVerif.Lemmas.Core.Sound'] + list(extra_mods) + (['BytesVerif.Cert.C17'] if pid == 'C02' else []))
+        if pid == 'C02':
+            names17 = vlib.theorem_names('BytesVerif/Cert/C17.lean')
+            res17 = vlib.lake_build(['BytesVerif.Cert.C17'])
+            if res17['BytesVerif.Cert.C17'][0]:
+                ok17, found17, problems17 = vlib.audit_axioms(['BytesVerif.Cert.C17'], names17, 'C02_c17')
+            else:
+                ok17, found17, problems17 = False, {}, [t + ': module does not build' for t in names17]
+            for t in names17:
+                bad = [p for p in problems17 if p.startswith(t + ':')]
+                run.obligation(t, not bad, '; '.join(bad))
+                run.axioms[t] = found17.get(t)
+            if problems17:
+                b = run.breakage('unsafe-site inventory certificate (Cert/C17) no longer checks', '\n'.join(problems17[:6]))
         # the workhorse lemma behind every M1 property
         ok, found, problems = vlib.audit_axioms(['BytesVerif.Lemmas.Core.Sound'], ['BytesVerif.Core.step_sound', 'BytesVerif.Core.WFx_init'], pid + '_sound')
         for t in ('BytesVerif.Core.step_sound', 'BytesVerif.Core.WFx_init'):
@@ -130,6 +145,7 @@ def core_check(pid, props_mod, fail_pids, modes=('walk', 'boundary', 'pairs'), s
                                'and the reviewed unsafe-site inventory (Cert/C17)')
         if pid == 'C02' and run.tier == 'thorough' and not a.replay:
             asan_support(run, a, [['seq'], ['seq', 'boundary'], ['seq', 'pairs']], 'C02')
+            miri_support(run, a)
         if sample:
             run.samples += sample
         return run.finish()
@@ -164,6 +180,25 @@ def m1_probe(run, a):
 def c18(run, a):
     vlib.extract()
     vlib.standard_lean_phase(run, 'BytesVerif.Props.C18', None, ['BytesVerif.Props.C08'])
+    # the recycling model refines M1 (Props/C18Refine.lean, Props/C18RefineOps.lean): every Rec operation against the M1 operation
+    ref_thms = {'BytesVerif.Props.C18Refine': ['reserve_refines_strong', 'step_reserve_refines_strong', 'step_reserve_layout'],
+                'BytesVerif.Props.C18RefineOps': ['step_advance_refines', 'step_truncate_refines', 'step_extend_refines', 'step_splitTo_refines',
+                                                  'step_split_refines', 'step_dropPart_refines', 'step_splitOffTail_refines',
+                                                  'step_unsplitLast_refines', 'step_refines', 'run_refines', 'alloc_size_bounded_M1']}
+    resr = vlib.lake_build(list(ref_thms))
+    for mod, ts in ref_thms.items():
+        ns = 'BytesVerif.Core.C18Refine.'
+        full = [ns + t for t in ts]
+        if resr[mod][0]:
+            okr, foundr, problemsr = vlib.audit_axioms([mod], full, 'C18_' + mod.split('.')[-1])
+        else:
+            okr, foundr, problemsr = False, {}, [t + ': module does not build' for t in full]
+        for t in full:
+            bad = [p for p in problemsr if p.startswith(t + ':')]
+            run.obligation(t, not bad, '; '.join(bad))
+            run.axioms[t] = foundr.get(t)
+        if problemsr:
+            run.breakage(f'refinement of the recycling model to M1 ({mod}) no longer checks', '\n'.join(problemsr[:6]))
     for t in ['BytesVerif.Core.reclaim_whole', 'BytesVerif.Core.reserve_whole_no_alloc']:
         ok, found, problems = vlib.audit_axioms(['BytesVerif.Props.C08'], [t], 'C18w')
         run.obligation(t, ok, '; '.join(problems))
@@ -256,3 +291,42 @@ def asan_support(run, a, streams, what):
     run.cov['asan'] = res
     run.trusted.append('thorough tier only: AddressSanitizer build of the harness (nightly, no ledger allocator) as a second out-of-bounds / '
                        'use-after-free oracle on the same streams — support, not proof')
+
+
+def miri_support(run, a, walks=12):
+    """Thorough-tier SUPPORT run for C02's 'partial' part (provenance / aliasing rules that M1 cannot express): a small sample of the
+    seq stream under Miri (nightly, offline, no ledger allocator).  Never the deciding evidence; an error reported by Miri is a
+    concrete failing history."""
+    import subprocess
+    env = dict(os.environ)
+    env.update({'CARGO_NET_OFFLINE': 'true', 'MIRIFLAGS': '-Zmiri-disable-isolation -Zmiri-ignore-leaks', 'VERIF_TIER': 'quick',
+                'CARGO_TARGET_DIR': os.path.join(vlib.BUILD, 'cargo-miri')})
+    cmd = ['cargo', '+nightly', 'miri', 'run', '--quiet', '--bin', 'hseq', '--features', 'noledger', '--', 'seq', str(walks)]
+    try:
+        with vlib.Lock('cargo.lock'):
+            q = subprocess.run(cmd, cwd=os.path.join(vlib.VERIF, 'harness'), env=env, stdout=subprocess.PIPE, stderr=subprocess.PIPE, timeout=2400)
+    except subprocess.TimeoutExpired:
+        run.cov['miri'] = 'timeout'
+        return
+    out = q.stdout.decode(errors='replace').splitlines()
+    err = q.stderr.decode(errors='replace')
+    scripts = sum(1 for l in out if l.startswith('script'))
+    ops = sum(1 for l in out if l.startswith('op '))
+    run.cov['miri'] = {'rc': q.returncode, 'scripts': scripts, 'ops': ops}
+    if 'Undefined Behavior' in err or 'error: unsupported operation' in err and scripts == 0:
+        if 'Undefined Behavior' in err:
+            tries = []
+            for ln in out:
+                if ln.startswith('script'):
+                    tries = []
+                elif ln.startswith('try '):
+                    tries.append('op ' + ln[4:])
+            kind = [l for l in err.splitlines() if 'Undefined Behavior' in l][:1]
+            run.fail('miri:' + (kind[0][:60] if kind else ''), 'oracle-fail C02 [miri] ' + (kind[0] if kind else ''),
+                     '# cargo +nightly miri run --bin hseq --features noledger -- seq replay <this file>\n# ' + '\n# '.join(err.splitlines()[:12]) + '\n' + '\n'.join(tries))
+        else:
+            run.cov['miri'] = 'unavailable: ' + err[-300:]
+    elif q.returncode != 0 and scripts == 0:
+        run.cov['miri'] = 'unavailable: ' + err[-300:]
+    run.trusted.append('thorough tier only: a sample of the seq stream under Miri (Stacked Borrows / provenance / uninitialised reads on the '
+                       'histories sampled) — support for the part of C02 that M1 cannot express, not proof')
